@@ -58,6 +58,7 @@ def w({sig}) -> bool:
 {pres}
     post: {post}
     """
+    _R.fresh()
     try:
         _r = H.{fn}({call})
     except Exception as _e:
